@@ -120,9 +120,12 @@ class C09(Prop):
         "console output (silent=False, a quarter of the cases) goes to a text stream that accepts it",
         "sequential histories (one caller thread at a time); get_* accessors take no lock and are not part of the automaton",
     ]
-    trusted_modelled = ["modelled, not verified: the nine public mutators of Telomere as Operon.Telomere.step; "
-                        "lock shapes of all methods regenerated by extractor E3 (Operon/Gen/TelomereLocks.lean), "
-                        "thresholds by E5 (Operon/Gen/TelomereConsts.lean)"]
+    trusted_modelled = ["modelled, not verified: the nine public mutators of Telomere as Operon.Telomere.step (incl. the length of "
+                        "the event log), the accessors, callbacks that raise (stepCb), several lifecycles sharing the clock "
+                        "(World); lock shapes of all methods regenerated by extractor E3 (Operon/Gen/TelomereLocks.lean), "
+                        "thresholds, call defaults / keyword names and the measured capacity of the event log by E5 "
+                        "(Operon/Gen/TelomereConsts.lean); the nine mutators and the two predicate accessors translated from the "
+                        "source by py2lean (Operon/Gen/TelomereTranslated.lean) and proved equal to the model"]
 
     # -------------------------------------------------------------------------------------------------------
     def setup(self, ctx):
